@@ -8,7 +8,7 @@
    distinct field and variant names); dyn_ser: to_stdvec_dyn; enc: the static encoder of
    C01/C02.  The host's float conversions are parameters; the only fact used about them is
    that widening an f32 and narrowing it back is the identity. *)
-From PV Require Import Base MachineInt VarintParams GenLoops DataModel Schema SchemaConv Conform Dyn JsonOf Ser VarintCore DynAgree.
+From PV Require Import Base MachineInt VarintParams GenLoops DataModel Schema SchemaConv Conform Dyn JsonOf Ser VarintCore DynAgree DynAgreeDe.
 Open Scope N_scope.
 
 (* encoding the serde_json form of a value under its schema yields exactly the bytes the static
@@ -19,6 +19,15 @@ Theorem C17_encode_agrees : forall int_to_f64 narrow widen,
   dyn_ser int_to_f64 narrow s (json_of widen v) = DOk (enc (erase v)).
 Proof. exact ser_agree_enc. Qed.
 
+(* decoding the static encoder's bytes under the schema yields exactly the serde_json form.
+   small_seqs v (every sequence and map in v has at most 65536 elements) only matters for
+   elements that occupy no bytes: a longer run of those is known finding F9 of C18, where the
+   model answers DUnbounded instead of materialising the list *)
+Theorem C17_decode_agrees : forall widen d v s,
+  conforms d v s = true -> unamb v = true -> in_scope s = true -> small_seqs v = true ->
+  from_slice_dyn widen s (enc (erase v)) = DOk (json_of widen v).
+Proof. exact de_agree_enc. Qed.
+
 (* the crate's private copies of the varint writers are the core's *)
 Theorem C17_private_copies_agree : dyn_writers = core_writers.
 Proof. exact dyn_writers_std. Qed.
@@ -28,9 +37,11 @@ Example C17_example :
   let s := STuple [SSeq (SOption (SEnum [69] [([65], DUnit, []); ([66], DStruct, [([120], SPrim PU8); ([121], SPrim PI16)])])); SPrim PF32] in
   let v := NTuple [NSeq [NSome (NVariant [69] 1 [66] (NStruct [66] [([120], NInt U8 7); ([121], NInt I16 (-2))])); NNone;
                          NSome (NVariant [69] 0 [65] (NUnitStruct [65]))]; NF32 1069547520] in
-  conforms 1 v s = true /\ unamb v = true /\ in_scope s = true /\
+  conforms 1 v s = true /\ unamb v = true /\ in_scope s = true /\ small_seqs v = true /\
+  from_slice_dyn (fun b => 4609434218613702656) s (enc (erase v)) = DOk (json_of (fun b => 4609434218613702656) v) /\
   dyn_ser (fun _ => 0) (fun b => 1069547520) s (json_of (fun b => 4609434218613702656) v) = DOk (enc (erase v)).
 Proof. repeat split; vm_compute; reflexivity. Qed.
 
 Print Assumptions C17_encode_agrees.
+Print Assumptions C17_decode_agrees.
 Print Assumptions C17_private_copies_agree.
